@@ -15,7 +15,11 @@
 (*   <<2, v,  v,  s,  s >>  C_{vv}(0) + Verr(s, v)                             *)
 (*   <<3, l,  s,  0,  0 >>  f_l(x_s)      drift function l at sample s        *)
 (*   <<4, v,  v0, s,  0 >>  C_{v v0}(x_s - target)  (block: mean over the     *)
-(*                           discretisation points)                            *)
+(*                           discretisation points OF THE TARGET BLOCK: the     *)
+(*                           mesh of the grid, or the extension carried by the  *)
+(*                           target cell itself when the support is defined     *)
+(*                           per cell - krigcell / flagPerCell; the block       *)
+(*                           variance C_vv is then the one of that very cell)   *)
 (*   <<5, l,  0,  0,  0 >>  f_l(target)                                       *)
 (*   <<0, 0,  0,  0,  0 >>  zero                                              *)
 (*                                                                         *)
